@@ -237,6 +237,18 @@ def sessions_part(chk):
                                               "invocations": N, "warmup": warmup, "retries_after_failure": 1,
                                               "benchmarks": ["B%d" % k for k in range(nb)]}},
                    "experiments": {"X": {"executions": [{"E": {"suites": ["S"]}}]}}}
+            # identifying values with braces, percent signs and format-like text: they are displayed as they are
+            extras = {}
+            if rng.random() < 0.6:
+                pool = ["{{name}}.html", '{"n":1}', "{ind}", "{0}x", "50%%", "-x 1", "}{"]
+                blist = []
+                for k in range(nb):
+                    if rng.random() < 0.6:
+                        extras["B%d" % k] = rng.choice(pool)
+                        blist.append({"B%d" % k: {"extra_args": extras["B%d" % k]}})
+                    else:
+                        blist.append("B%d" % k)
+                raw["benchmark_suites"]["S"]["benchmarks"] = blist
             failing = {"B%d" % k for k in range(nb) if rng.random() < 0.25}
             fail_after = {b: rng.randint(0, N) for b in failing}
             vals = itertools.count(1)
@@ -254,10 +266,23 @@ def sessions_part(chk):
                 if cnt["n"] > stop:
                     raise KeyboardInterrupt()
                 return script(bench, k, inv)
-            session.run_session(raw, script1, data_file)
-            ui = CapUI()
-            rep = CliReporter(False, ui)
-            ses = session.run_session(raw, script, data_file, cli_reporter=rep)
+            skey = lambda args: (args.split()[1], args.split()[2])
+            session.run_session(raw, script1, data_file, start_key=skey)
+            # the real UI (its output() is what prints the report), standard output captured
+            import contextlib, io
+            from rebench.ui import UI
+            real_ui = UI()
+            real_ui.init(False, False)
+            rep = CliReporter(False, real_ui)
+            buf = io.StringIO()
+            with contextlib.redirect_stdout(buf):
+                ses = session.run_session(raw, script, data_file, cli_reporter=rep, start_key=skey)
+
+            class _U:      # parse_tables takes the printed texts
+                # the uniform-value list comes first, the table after the first ruler
+                out = [x for x in (buf.getvalue().split("\n---", 1) if "Property" in buf.getvalue().split("\n---", 1)[0]
+                                   else [buf.getvalue()])]
+            ui = _U()
             case = dict(config=raw, failing=fail_after, interrupted_after=stop)
             if isinstance(ses.result, str):
                 chk.violation("C18 session ends without an exception", case, "no exception", ses.result)
@@ -278,6 +303,10 @@ def sessions_part(chk):
                 if full["Benchmark"] in got:
                     chk.violation("C18 every run is listed once", case, "one row", full["Benchmark"])
                 got[full["Benchmark"]] = (full["#Samples"], full["Mean (ms)"])
+                want_extra = str(extras.get(full["Benchmark"], "")).replace("%%", "%") if False else str(extras.get(full["Benchmark"], ""))
+                if full.get("Extra", "") != want_extra:
+                    chk.violation("C18 identifying values are displayed as they are configured, whatever characters they contain", case,
+                                  want_extra, full.get("Extra"))
             exp = {}
             for k in range(nb):
                 b = "B%d" % k
